@@ -2,6 +2,7 @@ package checks
 
 import (
 	"bytes"
+	"encoding/asn1"
 	"fmt"
 	"github.com/zmap/zcrypto/x509"
 	"math/big"
@@ -232,7 +233,44 @@ func c09Judge(c *mon.Ctx, o *mon.Obj, desc string, g lint.Registry, rng *rand.Ra
 	base := mon.SnapOf(rs)
 	donor := W.Objs[W.ByKind[corpus.Cert][rng.Intn(len(W.ByKind[corpus.Cert]))]].Cert.Signature
 	compared := 0
-	for vname, vb := range c09Variants(rng, cur, donor) {
+	variants := c09Variants(rng, cur, donor)
+	// signature values that LOOK like certificate content: the tail of this certificate's own to-be-signed bytes
+	// (its extensions), and its extensions' OID encodings each followed by an explicit critical FALSE / TRUE / the
+	// value's OCTET STRING header - for lints that search or re-decode the raw certificate
+	fill := func(pat []byte) []byte {
+		out := make([]byte, len(cur))
+		for i := range out {
+			out[i] = pat[i%len(pat)]
+		}
+		return out
+	}
+	if tbs := o.Cert.RawTBSCertificate; len(tbs) > 0 {
+		tail := tbs
+		if len(tail) > len(cur) {
+			tail = tail[len(tail)-len(cur):]
+		}
+		variants["own-tbs-tail"] = fill(tail)
+		if len(tbs) > len(cur)+40 {
+			variants["own-tbs-middle"] = fill(tbs[len(tbs)/2 : len(tbs)/2+len(cur)])
+		}
+	}
+	for suffix, label := range map[string]string{"\x01\x01\x00": "ext-oids+critical-false", "\x01\x01\xff": "ext-oids+critical-true", "\x04\x02\x30\x00": "ext-oids+empty-value"} {
+		var pat []byte
+		for _, e := range o.Cert.Extensions {
+			if b, err := asn1.Marshal(asn1.ObjectIdentifier(e.Id)); err == nil { // the parser's OID type is its own: convert, or it encodes as SEQUENCE OF INTEGER
+				pat = append(append(pat, b...), suffix...)
+			}
+		}
+		if len(pat) > 0 {
+			variants[label] = fill(pat)
+			if len(pat) < len(cur) { // the same, ending exactly at the end of the signature
+				sh := make([]byte, len(cur))
+				copy(sh[len(cur)-len(pat):], pat)
+				variants[label+"-at-end"] = sh
+			}
+		}
+	}
+	for vname, vb := range variants {
 		if bytes.Equal(vb, cur) {
 			continue
 		}
